@@ -11,6 +11,8 @@ use std::panic::{catch_unwind, AssertUnwindSafe};
 mod types;
 #[path = "c04/uints.rs"]
 mod uints;
+#[path = "c04/more.rs"]
+mod more;
 
 /// a component type of the quantifier (u8/u16/u32/f32/f64; u64/u128 only for the uint casts)
 pub trait Comp: Copy + std::fmt::Debug + 'static {
@@ -85,7 +87,9 @@ impl<'a> Ctx<'a> {
         self.out.check(ok, clause, || format!("{}<{}>: {}", ty, comp, detail()));
     }
     /// one cast: line for the model, and the clauses of the property that speak about it
-    pub fn emit(&mut self, op: &str, form: &str, api: &str, b: &Raw, extra: Option<(usize, usize)>, res: Res) {
+    pub fn emit(&mut self, op: &str, form: &str, api: &str, b: &Raw, extra: Option<(usize, usize)>, res: Res) { self.emit_opt(true, op, form, api, b, extra, res) }
+    /// `proto = false`: the oracle clauses only, no protocol line (types the model's type table does not know, c04/more.rs)
+    pub fn emit_opt(&mut self, proto: bool, op: &str, form: &str, api: &str, b: &Raw, extra: Option<(usize, usize)>, res: Res) {
         let by_value = form == "value" || form == "array";
         let id_in = if by_value { 0 } else { 1 };
         let id_out = |r: &Raw| if by_value { 0 } else if r.ptr == b.ptr { 1 } else { 2 };
@@ -99,7 +103,7 @@ impl<'a> Ctx<'a> {
             Res::Panic => "panic".into(),
         };
         let line = format!("cast {} {} {} {} {} | {} {} {} {} {}{} | {}", op, form, api, self.ty, self.comp, self.n, id_in, b.len, b.cap, self.blob(&b.mem), ex, outs);
-        self.out.case(&line);
+        if proto { self.out.case(&line); }
         self.out.count(&format!("cls:{}/{}", op, form));
         // ---- the property's own predicate
         let n = self.n;
@@ -212,5 +216,6 @@ pub fn run(tier: &str, seed: u64, dir: &str) {
     let mut rng = Rng::new(seed);
     types::run_all(&mut out, &mut rng, tier);
     uints::run_all(&mut out, &mut rng, tier);
+    more::run_all(&mut out, &mut rng, tier); // coverage audit (AUDIT_C04.md): after everything else, the earlier case stream is unchanged
     out.finish(dir, "");
 }
